@@ -71,7 +71,7 @@ def _get_field_parameters(tp: "type[BaseModel]", field_name: str, field_info: "F
             parameters.append(field_info.validation_alias)
         elif isinstance(field_info.validation_alias, AliasChoices):
             parameters.extend(alias for alias in field_info.validation_alias.choices if isinstance(alias, str))
-    return [param for param in parameters if param.isidentifier()]
+    return parameters
 
 
 def _get_field_parameter_name(tp: "type[BaseModel]", field_name: str, field_info: "FieldInfo") -> str:
